@@ -32,7 +32,7 @@ type recResponder struct {
 	errc  string
 }
 
-func (r *recResponder) reset()                                { *r = recResponder{w: r.w} }
+func (r *recResponder) reset()                                  { *r = recResponder{w: r.w} }
 func (r *recResponder) Set(opaque uint32, quiet bool) error     { r.ok = true; return nil }
 func (r *recResponder) Add(opaque uint32, quiet bool) error     { r.ok = true; return nil }
 func (r *recResponder) Replace(opaque uint32, quiet bool) error { r.ok = true; return nil }
@@ -55,8 +55,8 @@ func (r *recResponder) item(miss bool, data []byte, flags uint32) {
 		r.items = append(r.items, []interface{}{"hit", r.w.ProjectOrCorrupt(data), r.w.FlagsBack(flags)})
 	}
 }
-func (r *recResponder) Get(g common.GetResponse) error  { r.item(g.Miss, g.Data, g.Flags); return nil }
-func (r *recResponder) GAT(g common.GetResponse) error  { r.item(g.Miss, g.Data, g.Flags); return nil }
+func (r *recResponder) Get(g common.GetResponse) error   { r.item(g.Miss, g.Data, g.Flags); return nil }
+func (r *recResponder) GAT(g common.GetResponse) error   { r.item(g.Miss, g.Data, g.Flags); return nil }
 func (r *recResponder) GetE(g common.GetEResponse) error { r.item(g.Miss, g.Data, g.Flags); return nil }
 func (r *recResponder) Error(opaque uint32, reqType common.RequestType, err error, quiet bool) error {
 	switch err {
@@ -172,7 +172,8 @@ func bucketOf(key []byte, stripes int) int {
 
 // Lin explores schedules of concurrent programs on the real LockedOrca + L1L2/L1L2Batch
 // orchestrators over real std handlers and records every execution.
-//   -mode multi|single (reader mode)  -len <log2 stripes>  -in programs.json  -n max schedules per program
+//
+//	-mode multi|single (reader mode)  -len <log2 stripes>  -in programs.json  -n max schedules per program
 func Lin(a Args) {
 	rec, err := NewRec(a.Out)
 	must(err)
@@ -373,13 +374,13 @@ type faultable struct {
 
 func (h faultable) with() gate.Handler { g := h.Handler; g.Fault = *h.f; return g }
 
-func (h faultable) Set(c common.SetRequest) error     { return h.with().Set(c) }
-func (h faultable) Add(c common.SetRequest) error     { return h.with().Add(c) }
-func (h faultable) Replace(c common.SetRequest) error { return h.with().Replace(c) }
-func (h faultable) Append(c common.SetRequest) error  { return h.with().Append(c) }
-func (h faultable) Prepend(c common.SetRequest) error { return h.with().Prepend(c) }
-func (h faultable) Delete(c common.DeleteRequest) error { return h.with().Delete(c) }
-func (h faultable) Touch(c common.TouchRequest) error { return h.with().Touch(c) }
+func (h faultable) Set(c common.SetRequest) error                       { return h.with().Set(c) }
+func (h faultable) Add(c common.SetRequest) error                       { return h.with().Add(c) }
+func (h faultable) Replace(c common.SetRequest) error                   { return h.with().Replace(c) }
+func (h faultable) Append(c common.SetRequest) error                    { return h.with().Append(c) }
+func (h faultable) Prepend(c common.SetRequest) error                   { return h.with().Prepend(c) }
+func (h faultable) Delete(c common.DeleteRequest) error                 { return h.with().Delete(c) }
+func (h faultable) Touch(c common.TouchRequest) error                   { return h.with().Touch(c) }
 func (h faultable) GAT(c common.GATRequest) (common.GetResponse, error) { return h.with().GAT(c) }
 func (h faultable) Get(c common.GetRequest) (<-chan common.GetResponse, <-chan error) {
 	return h.with().Get(c)
